@@ -339,7 +339,7 @@ def decArrLen (flex : Bool) (k : AKind) (src : Bytes) : Res Int :=
 /-- what the decoder leaves in the field when no element is decoded (`l ≤ 0`). -/
 def emptyArr (ver : Int) (k : AKind) (l : Int) : Val :=
   match k with
-  | .nullable n => if ver < n ∨ l = 0 then .list .nil else .null
+  | .nullable n => if ver < n ∨ ver < 0 ∨ l = 0 then .list .nil else .null   -- generated: `if version < N || l == 0` with N = 0 when unversioned
   | _ => .null
 
 /-! ## Defaults -/
@@ -627,10 +627,12 @@ def schemaOK (ver : Int) : Ty → Bool
   | .prim _ => true
   | .str _ => true
   | .arr _ t => decide (1 ≤ minW ver t) && schemaOK ver t
-  | .struct _ _ fs => tagsDistinct fs && schemaOKF ver fs
-def schemaOKF (ver : Int) : Fields → Bool
+  | .struct _ ff fs => tagsDistinct fs && schemaOKF ver (flexAt ff ver) fs
+/-- only the fields that are written at `ver` matter: untagged ones present at `ver`, tagged ones when the struct is flexible. -/
+def schemaOKF (ver : Int) (flex : Bool) : Fields → Bool
   | .nil => true
-  | .cons _ _ _ _ _ t rest => schemaOK ver t && schemaOKF ver rest
+  | .cons _ minV maxV tag _ t rest =>
+    ((match tag with | some _ => !flex | none => !present minV maxV ver) || schemaOK ver t) && schemaOKF ver flex rest
 end
 
 /-! ## Top level entry points (what the harness calls) -/
